@@ -194,11 +194,12 @@ func runTree(lg *gate.Log, idx int, t *Tree, seed int64) {
 	}
 	lg.Emit(gate.Event{"ev": "readat", "t": idx, "rs": rs})
 
-	// sequential Read with several buffer sizes, each on a fresh reader
+	// sequential Read with several buffer sizes, each on a fresh reader: runs = [[buf, [[res, ids]...]]...]
+	runs := [][]any{}
 	for _, b := range []int{1, 2, 3, 5, size + 1} {
 		fr2, res := open()
 		if fr2 == nil {
-			lg.Emit(gate.Event{"ev": "seqread", "t": idx, "buf": b, "chunks": [][]any{{res, []int{}}}})
+			runs = append(runs, []any{b, [][]any{{res, []int{}}}})
 			continue
 		}
 		chunks := [][]any{}
@@ -220,15 +221,16 @@ func runTree(lg *gate.Log, idx int, t *Tree, seed int64) {
 			}
 		}
 		fr2.Close()
-		lg.Emit(gate.Event{"ev": "seqread", "t": idx, "buf": b, "chunks": chunks})
+		runs = append(runs, []any{b, chunks})
 	}
+	lg.Emit(gate.Event{"ev": "seqread", "t": idx, "runs": runs})
 
 	// one reader object driven through a seeded script of Seek and Read
 	rng := rand.New(rand.NewSource(seed*1000003 + int64(idx)))
 	fr3, _ := open()
 	if fr3 != nil {
 		lg.Emit(gate.Event{"ev": "rop", "t": idx, "op": "new"})
-		for k := 0; k < 9; k++ {
+		for k := 0; k < 7; k++ {
 			if rng.Intn(5) < 2 {
 				whence := rng.Intn(3)
 				var off int
